@@ -284,7 +284,7 @@ Definition hash_domain (name : string) (args : dict) : bool :=
 Definition chunker_domain (name : string) (args : dict) : bool :=
   String.eqb name "gclmulchunker" &&
   match int_arg "min_length" args, int_arg "max_length" args with
-  | Some mn, Some mx => (1 <=? mn) && (4 * ((mn + 3) / 4) <=? mx)
+  | Some mn, Some mx => (1 <=? mn) && (4 * ((mn + 3) / 4) <=? mx) && (mx <=? 9223372036854775807)   (* 2 * mx fits size_t *)
   | _, _ => false
   end.
 
@@ -584,6 +584,7 @@ Definition gclmulchunker_spec : adapter :=
      a_raises := [COr (CNot (CIsInt "min_length")) (CNot (CIsInt "max_length"));
                   CCmp (EParam "min_length") [(OLt, EConst 1)];
                   CCmp (EParam "min_length") [(OGt, EParam "max_length")];
+                  CCmp (EParam "max_length") [(OGt, EConst 9223372036854775807)];     (* sys.maxsize: size_t arithmetic on 2 * max *)
                   CCmp (EMul (EFloorDiv (ESub (EAdd (EParam "min_length") (EParam "alignment")) (EConst 1)) (EParam "alignment"))
                              (EParam "alignment")) [(OGt, EParam "max_length")]] |}.
 
